@@ -756,6 +756,23 @@ func (c *SpecCtx) call(x *SExpr) Value {
 		return scInt(res)
 	case "tsecs", "tnanos":
 		return scInt(e.timeFn(x.Name, c.eval(x.Args[0])))
+	case "visited":
+		// visited(n, k): k has been produced by the n-th range-over-map of the function
+		top := e.cur
+		if top == nil {
+			specFail("visited() outside a function")
+		}
+		name := fmt.Sprintf("V!%s!%s", sanitize(top.fn.Name()), x.Args[0].String())
+		srt, ok := e.heapSorts[name]
+		if !ok {
+			specFail("visited(%s, ..): no such map iteration yet", x.Args[0].String())
+		}
+		arr, ok := c.st.heap[name]
+		if !ok {
+			arr = constArray(srt, tFalse)
+		}
+		kv := c.eval(x.Args[1])
+		return boolV(mkSelect(arr, e.flatten(kv)[0]))
 	case "afrom":
 		e.declBytesFuncs()
 		return scInt(sx("|afrom!|", c.intTerm(c.eval(x.Args[0])), c.intTerm(c.eval(x.Args[1])), e.flatten(c.eval(x.Args[2]))[0]))
